@@ -94,7 +94,8 @@ func main() {
 			"empty (null) items in the plugin lists of a scenario file, scenario weights (negative, zero, missing, with common divisors) through the scenario providers with one full pass acquired, cli.Run in a child process for configs without a well-formed pools list; " +
 			"the same http formats read again and again (passes=0 with a limit: files without entries, last entry cut after its size line), bodies around and above the 1 MiB chunk of readSized, " +
 			"the generic JSON provider (plugin type json) over MultiPassReader (sources without ammo, truncated last ammo, passes 0..3), a metamorphic prefix run of every format (good alone vs good++junk), " +
-			"placeholders into typed fields; thorough adds exhaustive enumerations (every file of <= 5 tokens per http format, every name(arg,arg) / header string of <= 6 tokens, every request list of <= 3 items, index x source x length x calls, weight lists of <= 3, JSON sources of <= 4 tokens); " +
+			"placeholders into typed fields; jsonline files of a safe JSON subset (object streams, arrays, refused files, truncated and garbled values) predicted entry by entry under every passes x limit x preload combination, " +
+			"the continue_on_error / headers / uris options of the http provider, an injected I/O fault (the read reaching a given byte, the n-th seek to the start) under every format; thorough adds exhaustive enumerations (every file of <= 5 tokens per http format, every name(arg,arg) / header string of <= 6 tokens, every request list of <= 3 items, index x source x length x calls, weight lists of <= 3, JSON sources of <= 4 tokens); " +
 			"a case is non-trivial when it reaches the modelled decoder with a non-empty input",
 	})
 }
@@ -186,6 +187,8 @@ func runOnce(input string) string {
 		return runGenJSON(kv, data)
 	case "pfx":
 		return runPfx(kv)
+	case "flt":
+		return runFlt(kv)
 	case "conf":
 		return runConf(kv)
 	case "hdr":
@@ -382,6 +385,9 @@ func class(input, obs string) string {
 	}
 	if k == "pfx" {
 		k += ":" + kv["fmt"]
+	}
+	if k == "flt" {
+		k += ":" + kv["fmt"] + ":" + kv["mode"]
 	}
 	if k == "conf" {
 		k += ":" + kv["field"]
